@@ -73,7 +73,12 @@ def gen(rng, tier):
         c["y_test"] = [rng.randrange(2) for _ in range(len(c["dists"]))]
         cases.append(c)
     # growing unit counts, same K and class count, back to back in one process
-    cases.append({"multi": [rand_case(rng, n=n, K=2, C=2, shape="hyper") for n in (3, 5)]})
+    def multi_inst(n):
+        while True:          # same K and class count in both instances, enough rows for large coalitions to matter
+            c = rand_case(rng, n=n, K=2, C=2, shape="hyper")
+            if c["C"] == 2 and c["K"] == 2 and len(c["rows"]) >= 3 and set(u for r in c["rows"] for u in r) == set(range(n)):
+                return c
+    cases.append({"multi": [multi_inst(n) for n in (3, 5)]})
     cases.append(rand_case(rng, n=1, K=2, C=1, shape="onerow"))
     return cases
 
